@@ -1,0 +1,32 @@
+//go:build verif
+
+// Package verifhook provides named hook points for the model-based verification
+// harness kept outside this repository. Without the `verif` build tag every
+// function of this package is an empty inlinable stub.
+package verifhook
+
+import "sync/atomic"
+
+// Enabled reports whether hooks are compiled in.
+const Enabled = true
+
+type handlerFunc = func(name string, args ...any)
+
+var handler atomic.Pointer[handlerFunc]
+
+// Set installs h as the process-wide hook handler; nil removes it. The handler
+// may block (scheduler gate) or panic (simulated crash point).
+func Set(h func(name string, args ...any)) {
+	if h == nil {
+		handler.Store(nil)
+		return
+	}
+	handler.Store(&h)
+}
+
+// Point calls the installed handler, if any.
+func Point(name string, args ...any) {
+	if h := handler.Load(); h != nil {
+		(*h)(name, args...)
+	}
+}
